@@ -65,7 +65,9 @@ type Env struct {
 	Hist []Ev
 	// HistOn controls whether API-level events are kept (wire taps are
 	// always kept on the links).
-	fp uint64
+	fp     uint64
+	fpAcc  uint64
+	fpStep int
 
 	Violations []Violation
 	Notes      map[string]int // reach probes & counters
@@ -109,13 +111,21 @@ func (e *Env) Log(kind, who string, call int, info string) int {
 	e.evN++
 	n := e.evN
 	e.Hist = append(e.Hist, Ev{N: n, Kind: kind, Who: who, Call: call, Info: info})
-	// fingerprint: order of (kind, call)
-	h := e.fp
+	// fingerprint: order of (kind, call) across driver steps; events of one
+	// step are combined commutatively (several goroutines woken by one step -
+	// e.g. by a context cancellation, whose fan-out order inside the standard
+	// library is map-iteration order - log in an order the seed does not decide)
+	h := uint64(0xcbf29ce484222325)
 	for i := 0; i < len(kind); i++ {
 		h = (h ^ uint64(kind[i])) * 0x100000001b3
 	}
 	h = (h ^ uint64(call+1)) * 0x100000001b3
-	e.fp = h
+	if e.Step != e.fpStep {
+		e.fp = (e.fp ^ e.fpAcc) * 0x9E3779B97F4A7C15
+		e.fpAcc = 0
+		e.fpStep = e.Step
+	}
+	e.fpAcc += h
 	histMu.Unlock()
 	return n
 }
@@ -133,7 +143,7 @@ func (e *Env) NextEv() int {
 func (e *Env) Fingerprint() uint64 {
 	histMu.Lock()
 	defer histMu.Unlock()
-	return e.fp
+	return (e.fp ^ e.fpAcc) * 0x9E3779B97F4A7C15
 }
 
 // Violate records a violation.
